@@ -214,7 +214,40 @@ def with_sep(scripts):
         st = dict(st); st["op_sep"] = sum(1 for l in M if l == "sep")
         out.append((M, st, name))
     return out
-def c08(ctx): return check_api_property(ctx, oracles.c08, 160, 3000, caller_mut=0.6, post=with_sep)
+def loaded_column_scripts(ctx):
+    """C08: objects LOADED from files that hold points only, channels only or both, then given a new point / channel column
+    and edited in place: the loader must not leave frames sharing a payload"""
+    import random, struct
+    from . import c3dgen
+    out = []
+    X = gen.xhex
+    d = run.workdir(); ctx._tmpdirs = getattr(ctx, "_tmpdirs", []) + [d]
+    F = lambda v: struct.unpack("<I", struct.pack("<f", v))[0]
+    for i, (np_, nch, nsub, nfr) in enumerate([(0, 2, 2, 4), (3, 0, 0, 4), (0, 1, 1, 3), (2, 0, 1, 3), (2, 2, 2, 3), (1, 0, 0, 5), (0, 3, 5, 2)] * (1 if ctx.quick else 6)):
+        r = random.Random(ctx.seed * 977 + i)
+        L = c3dgen.Layout(r); L.lead_zeros = 0; L.zero_prologue = False; L.param_block = 2; L.order = "groups_first"; L.sparse_ids = False; L.extra_blocks = 0; L.pad_byte = 0x20
+        groups = [(1, b"POINT", False, b""), (2, b"ANALOG", False, b"")]
+        params = [(1, b"USED", False, "I", [], [np_], b""), (1, b"SCALE", False, "F", [], [F(-1.0)], b""), (1, b"RATE", False, "F", [], [F(100.0)], b""),
+                  (1, b"DATA_START", False, "I", [], [0], b""), (1, b"FRAMES", False, "I", [], [nfr], b""),
+                  (1, b"LABELS", False, "C", [2, np_], [b"P%d" % k for k in range(np_)], b""),
+                  (1, b"DESCRIPTIONS", False, "C", [1, np_], [b""] * np_, b""), (1, b"UNITS", False, "C", [2, np_], [b"mm"] * np_, b""),
+                  (2, b"USED", False, "I", [], [nch], b""), (2, b"RATE", False, "F", [], [F(100.0 * max(nsub, 1))], b""),
+                  (2, b"LABELS", False, "C", [2, nch], [b"C%d" % k for k in range(nch)], b""), (2, b"DESCRIPTIONS", False, "C", [1, nch], [b""] * nch, b""),
+                  (2, b"SCALE", False, "F", [nch], [F(1.0)] * nch, b""), (2, b"OFFSET", False, "I", [nch], [0] * nch, b""), (2, b"UNITS", False, "C", [1, nch], [b"V"] * nch, b""),
+                  (2, b"GEN_SCALE", False, "F", [], [F(1.0)], b"")]
+        header = dict(points=np_, analog_per_frame=nch * nsub, first=1, last=nfr, gap=0, scale=F(-1.0), subframes=nsub, rate=F(100.0), events=[])
+        frames = [([[c3dgen.fbits(r) for _ in range(4)] for _ in range(np_)], [[c3dgen.fbits(r) for _ in range(nch)] for _ in range(nsub if nch else 0)]) for _ in range(nfr)]
+        path = os.path.join(d, "lc%d.c3d" % i)
+        b_, ds_ = c3dgen.encode(dict(groups=groups, params=params, header=header, frames=frames), L, r)
+        bb = bytearray(b_); k_ = bb.find(b"DATA_START"); bb[k_ + 14:k_ + 16] = struct.pack("<H", ds_); open(path, "wb").write(bytes(bb))
+        S = ["load %s" % path, "point %s" % X(b"NEWPT")]
+        S += ["smut 0 pt %d 42280000 42280000 42280000 00000000" % np_, "dump"]
+        if nch and nsub: S += ["analog %s" % X(b"NEWCH"), "smut 1 ch 0 %d 42280000" % nch, "dump"]
+        S += ["point %s" % X(b"NEWPT2"), "smut %d pt 0 3f800000 3f800000 3f800000 3f800000" % (nfr - 1), "dump", "save @W@/lc.c3d", "load @W@/lc.c3d"]
+        out.append((S, {"loaded_column_%dp_%dc" % (min(np_, 1), min(nch, 1)): 1}, "loaded-column-%d" % i))
+    return out
+
+def c08(ctx): return check_api_property(ctx, oracles.c08, 160, 3000, caller_mut=0.6, post=with_sep, extra=loaded_column_scripts)
 def c10(ctx): return check_api_property(ctx, oracles.c10, 200, 5000, malformed=0.5, extra=lambda c: column_scripts(c) + pset_scripts(c))
 def c05(ctx): return check_api_property(ctx, oracles.c05, 200, 5000, with_io=True, extra=lambda c: ratio_scripts(c) + column_scripts(c) + loaded_edit_scripts(c))
 
@@ -286,6 +319,21 @@ def get_scripts(ctx):
                         L.append("get chan %d 0 %d" % (fi, i))
                     for key in cn[:2] + [b"C0", b"zz"]:
                         L.append("get chann %d 0 %s" % (fi, gen.xhex(key))); L.append("get chanidx %d 1 %s" % (fi, gen.xhex(key)))
+                # look-ups interleaved with renames of stored elements (a name moving to an EARLIER position, duplicates, a name vanishing)
+                if nf and np_ >= 2:
+                    X_ = gen.xhex
+                    last = pn[np_ - 1]
+                    L += ["get pointidx 0 %s" % X_(last), "get pointn 0 %s" % X_(last), "smut 0 ptname 0 %s" % X_(last + b"  "),
+                          "get pointidx 0 %s" % X_(last), "get pointn 0 %s" % X_(last), "get pointidx 0 %s" % X_(pn[0]),
+                          "smut 0 ptname %d %s" % (np_ - 1, X_(b"moved")), "get pointidx 0 %s" % X_(last), "get pointidx 0 %s" % X_(b"moved"),
+                          "smut 0 ptname 0 %s" % X_(b"gone"), "get pointidx 0 %s" % X_(last), "get pointn 0 %s" % X_(last)]
+                if nf and nc >= 2:
+                    X_ = gen.xhex
+                    last = cn[nc - 1]
+                    L += ["get chanidx 0 1 %s" % X_(last), "get chann 0 1 %s" % X_(last), "smut 0 chname 1 0 %s" % X_(last),
+                          "get chanidx 0 1 %s" % X_(last), "get chann 0 1 %s" % X_(last), "get chanidx 0 0 %s" % X_(last),
+                          "smut 0 chname 1 %d %s" % (nc - 1, X_(b"moved")), "get chanidx 0 1 %s" % X_(last), "smut 0 chname 1 0 %s" % X_(b"gone"),
+                          "get chanidx 0 1 %s" % X_(last), "get chann 0 1 %s" % X_(last)]
                 for i in idxs(4): L.append("get group %d" % i)
                 for key in [b"POINT", b"point", b"GRP", b"GRP ", b"ANALOG", b"none"]:
                     L.append("get groupn %s" % gen.xhex(key)); L.append("get groupidx %s" % gen.xhex(key))
@@ -466,7 +514,8 @@ def loaded_resave_scripts(ctx, n):
 
 def c03(ctx):
     def extra(c):
-        return residue_scripts(c, list(range(512))) + loaded_resave_scripts(c, 60 if c.quick else 1500)
+        ratio = [(_spec_after_saves(L + ["save @W@/ratio.c3d"]), st, name) for L, st, name in ratio_scripts(c)]   # header words after sub-frame ratio changes
+        return residue_scripts(c, list(range(512))) + loaded_resave_scripts(c, 60 if c.quick else 1500) + ratio
     return check_file_property(ctx, {"C03"}, 100, 2500, extra=extra)
 
 CHECKS.update({"C01": c01, "C03": c03})
@@ -808,7 +857,9 @@ def c15(ctx):
             L.append("mkframe v %s %s" % (pts, "|".join([sub] * 2) if nch else "-"))
             L += ["frame v"] * nfr
         return L + ["dumpmode none"]
-    objects = [("tiny", obj(0, 0, 0, 0)), ("small", obj(2, 1, 3, 1)), ("medium", obj(5, 3, 40, 6)), ("large", obj(20, 8, 400, 30))]
+    # "wide": frames of more than 1 KB (a block that size handed to the stream buffer goes straight to write(2)), points only / channels only
+    objects = [("tiny", obj(0, 0, 0, 0)), ("small", obj(2, 1, 3, 1)), ("medium", obj(5, 3, 40, 6)), ("large", obj(20, 8, 400, 30)),
+               ("wide-points", obj(80, 0, 12, 0)), ("wide-analogs", obj(0, 300, 6, 0))]
     jobs = []
     for name, L in objects:
         jobs.append((name, L))
@@ -860,7 +911,7 @@ def c15(ctx):
         for c, w, dt in fails:
             if c.startswith("_"): ctx.notes.append(name + ": could not learn the output size")
             else: ctx.fail(c, w, dt, S if len(S) < 3000 else job[1] + ["savefault @W@/q.c3d %s" % w.get("k", 0)])
-    return core.finish(ctx, "fault enumeration under the proof-level model of the save procedure: for 4 object sizes, write(2)/writev(2) of the instrumented library are interposed so that the OS "
+    return core.finish(ctx, "fault enumeration under the proof-level model of the save procedure: for 6 object shapes (incl. frames above 1 KB, points only and channels only), write(2)/writev(2) of the instrumented library are interposed so that the OS "
                        "accepts exactly k bytes then answers ENOSPC, for every k in 0..total+2 (files <= 4 KB; 256 stratified k incl. buffer boundaries above; all/2048 in the thorough tier), plus real "
                        "destinations: missing directory, /dev/full, RLIMIT_FSIZE at half the size and at 0, an unwritable /proc file, a directory; "
                        "expected: I/O failure iff k < total; distinct = (object, k)", level="proof")
@@ -1126,6 +1177,8 @@ def c14(ctx):
         L, st = gen.gen_api_history(seed, nops=25, malformed=0.15, with_io=None, within_capacity=True)
         # event-free objects built through the API, then saved twice; reload; save twice again
         L += ["save @W@/a1.c3d", "save @W@/a2.c3d", "load @W@/a1.c3d", "save @W@/b1.c3d", "save @W@/b2.c3d"]
+        # the same (small) object saved over an existing, longer file and to a fresh path: nothing of the old file may remain
+        L += ["save @W@/o1.c3d", "new", "save @W@/o1.c3d", "save @W@/o2.c3d"]
         return (L, st, "c14-%d" % seed)
     scripts = corpus_scripts("C14") + [mk(i) for i in range(80 if q else 2000)]
     def one(item):
@@ -1148,7 +1201,7 @@ def c14(ctx):
             if rec["op"] == "save" and rec["res"] == "R ok" and prev is not None and d is not None and d != prev:
                 out.append(("save_changes_object", {"op": rec["n"]}, "the object dump after save differs from the dump before"))
         # (iv) repeated saves are byte-identical
-        for a, b in (("a1.c3d", "a2.c3d"), ("b1.c3d", "b2.c3d")):
+        for a, b in (("a1.c3d", "a2.c3d"), ("b1.c3d", "b2.c3d"), ("o1.c3d", "o2.c3d")):
             if fA.get(a) is not None and fA.get(b) is not None and fA[a] != fA[b]:
                 i = next((i for i, (x, y) in enumerate(zip(fA[a], fA[b])) if x != y), -1)
                 out.append(("repeat_differs", {"files": a + "/" + b}, "two saves of the same object differ (first difference at byte %d)" % i))
